@@ -1,12 +1,264 @@
+/-
+  C05/C13 core lemma: `repr()` text is read back by Python's short-string-literal
+  scanner as exactly the original string, consuming exactly that text.
+
+  Side condition (visible in `scan_repr`): when `s = []` the rendered text is `''`;
+  if the following text starts with another `'`, Python (and `pyScanStr`) sees the
+  opening of a triple-quoted string `'''` and the round trip fails
+  (`scan_repr_nil_quote` below proves the failure, so the hypothesis is exactly
+  necessary and sufficient).  For `s ≠ []` nothing is required of `rest`.
+-/
 import Pyab.Model.PyStrLit
 namespace Pyab.Proofs
 open Pyab Pyab.PyStrLit
 
+/-! ### hex digits -/
+
+theorem hexVal_hexDigit : ∀ d, d < 16 → hexVal (hexDigit d) = some d := by decide
+
+/-- one step of `hexN`'s fold -/
+def hexStep (acc : Option Nat) (c : Char) : Option Nat :=
+  match acc, hexVal c with
+  | some a, some v => some (a * 16 + v)
+  | _, _ => none
+
+theorem hexN_eq (cs : List Char) : hexN cs = cs.foldl hexStep (some 0) := rfl
+
+theorem foldl_hexFixed (w : Nat) : ∀ (a n : Nat), n < 16 ^ w →
+    (hexFixed w n).foldl hexStep (some a) = some (a * 16 ^ w + n) := by
+  induction w with
+  | zero => intro a n h; simp at h; simp [hexFixed, h]
+  | succ w ih =>
+    intro a n h
+    have h1 : n / 16 < 16 ^ w := by
+      rw [Nat.pow_succ] at h; omega
+    rw [hexFixed, List.foldl_append, ih a _ h1]
+    simp only [List.foldl_cons, List.foldl_nil, hexStep, hexVal_hexDigit (n % 16) (Nat.mod_lt _ (by decide))]
+    rw [Nat.pow_succ, ← Nat.mul_assoc]
+    generalize a * 16 ^ w = k
+    congr 1; omega
+
+theorem hexN_hexFixed (w n : Nat) (h : n < 16 ^ w) : hexN (hexFixed w n) = some n := by
+  rw [hexN_eq, foldl_hexFixed w 0 n h]; simp
+
+/-! ### `scanBody` computation lemmas -/
+
+/-- prepend a decoded character to a scan result -/
+def consFst (c : Char) : Option (List Char × List Char) → Option (List Char × List Char) :=
+  Option.map fun (b, r) => (c :: b, r)
+
+theorem scanBody_x (q h1 h2 s v) (h : hexN [h1, h2] = some v) :
+    scanBody q ('\\' :: 'x' :: h1 :: h2 :: s) = consFst (Char.ofNat v) (scanBody q s) := by
+  rw [scanBody, h]; rfl
+
+theorem scanBody_u (q h1 h2 h3 h4 s v) (h : hexN [h1, h2, h3, h4] = some v)
+    (hv : ¬ (0xD800 ≤ v ∧ v ≤ 0xDFFF)) :
+    scanBody q ('\\' :: 'u' :: h1 :: h2 :: h3 :: h4 :: s) = consFst (Char.ofNat v) (scanBody q s) := by
+  rw [scanBody, h]; simp [consFst]; omega
+
+theorem scanBody_U (q h1 h2 h3 h4 h5 h6 h7 h8 s v) (h : hexN [h1, h2, h3, h4, h5, h6, h7, h8] = some v)
+    (hv : ¬ (0xD800 ≤ v ∧ v ≤ 0xDFFF)) (hv2 : v ≤ 0x10FFFF) :
+    scanBody q ('\\' :: 'U' :: h1 :: h2 :: h3 :: h4 :: h5 :: h6 :: h7 :: h8 :: s) = consFst (Char.ofNat v) (scanBody q s) := by
+  rw [scanBody, h]; simp [consFst]; omega
+
+theorem scanBody_plain (q c s) (h : c ≠ '\\') : scanBody q (c :: s) =
+    if c == q then some ([], s)
+    else if c == '\n' || c == '\r' || c == '\\' then none
+    else consFst c (scanBody q s) := by
+  rw [scanBody]
+  all_goals simp_all [consFst]
+
+theorem scanBody_bs_bs (q s) : scanBody q ('\\' :: '\\' :: s) = consFst '\\' (scanBody q s) := by
+  rw [scanBody]; rfl
+  all_goals simp
+theorem scanBody_bs_sq (q s) : scanBody q ('\\' :: '\'' :: s) = consFst '\'' (scanBody q s) := by
+  rw [scanBody]; rfl
+  all_goals simp
+theorem scanBody_bs_dq (q s) : scanBody q ('\\' :: '"' :: s) = consFst '"' (scanBody q s) := by
+  rw [scanBody]; rfl
+  all_goals simp
+theorem scanBody_bs_n (q s) : scanBody q ('\\' :: 'n' :: s) = consFst '\n' (scanBody q s) := by
+  rw [scanBody]; rfl
+  all_goals simp
+theorem scanBody_bs_t (q s) : scanBody q ('\\' :: 't' :: s) = consFst '\t' (scanBody q s) := by
+  rw [scanBody]; rfl
+  all_goals simp
+theorem scanBody_bs_r (q s) : scanBody q ('\\' :: 'r' :: s) = consFst '\r' (scanBody q s) := by
+  rw [scanBody]; rfl
+  all_goals simp
+
+theorem hexFixed_two (n) : hexFixed 2 n = [hexDigit (n / 16 % 16), hexDigit (n % 16)] := by
+  simp [hexFixed]
+theorem hexFixed_four (n) : hexFixed 4 n =
+    [hexDigit (n / 16 / 16 / 16 % 16), hexDigit (n / 16 / 16 % 16), hexDigit (n / 16 % 16), hexDigit (n % 16)] := by
+  simp [hexFixed]
+theorem hexFixed_eight (n) : hexFixed 8 n =
+    [hexDigit (n / 16 / 16 / 16 / 16 / 16 / 16 / 16 % 16), hexDigit (n / 16 / 16 / 16 / 16 / 16 / 16 % 16),
+     hexDigit (n / 16 / 16 / 16 / 16 / 16 % 16), hexDigit (n / 16 / 16 / 16 / 16 % 16),
+     hexDigit (n / 16 / 16 / 16 % 16), hexDigit (n / 16 / 16 % 16), hexDigit (n / 16 % 16), hexDigit (n % 16)] := by
+  simp [hexFixed]
+
+theorem scanBody_hex2 (q : Char) (c : Char) (tail) (h : c.toNat < 256) :
+    scanBody q ('\\' :: 'x' :: hexFixed 2 c.toNat ++ tail) = consFst c (scanBody q tail) := by
+  have hh := hexN_hexFixed 2 c.toNat (by simpa using h)
+  rw [hexFixed_two] at hh ⊢
+  simp only [List.cons_append, List.nil_append]
+  rw [scanBody_x _ _ _ _ _ hh, Char.ofNat_toNat]
+
+theorem scanBody_hex4 (q : Char) (c : Char) (tail) (h : c.toNat < 65536) :
+    scanBody q ('\\' :: 'u' :: hexFixed 4 c.toNat ++ tail) = consFst c (scanBody q tail) := by
+  have hh := hexN_hexFixed 4 c.toNat (by simpa using h)
+  rw [hexFixed_four] at hh ⊢
+  simp only [List.cons_append, List.nil_append]
+  rw [scanBody_u _ _ _ _ _ _ _ hh (by
+    have : c.toNat < 0xd800 ∨ (0xdfff < c.toNat ∧ c.toNat < 0x110000) := c.valid
+    omega), Char.ofNat_toNat]
+
+theorem scanBody_hex8 (q : Char) (c : Char) (tail) :
+    scanBody q ('\\' :: 'U' :: hexFixed 8 c.toNat ++ tail) = consFst c (scanBody q tail) := by
+  have hv : c.toNat < 0xd800 ∨ (0xdfff < c.toNat ∧ c.toNat < 0x110000) := c.valid
+  have hh := hexN_hexFixed 8 c.toNat (by simp only [Nat.reducePow]; omega)
+  rw [hexFixed_eight] at hh ⊢
+  simp only [List.cons_append, List.nil_append]
+  rw [scanBody_U _ _ _ _ _ _ _ _ _ _ _ hh (by omega) (by omega), Char.ofNat_toNat]
+
+theorem scanBody_escape (p : Nat → Bool) (q c : Char) (tail : List Char) (hq : q = '\'' ∨ q = '"') :
+    scanBody q (escapeChar p q c ++ tail) = consFst c (scanBody q tail) := by
+  unfold escapeChar
+  simp only []
+  by_cases h1 : (c == q || c == '\\') = true
+  · rw [if_pos h1]
+    simp only [Bool.or_eq_true, beq_iff_eq] at h1
+    simp only [List.cons_append, List.nil_append]
+    rcases h1 with h1 | h1
+    · subst h1; rcases hq with hq | hq <;> subst hq
+      · exact scanBody_bs_sq _ _
+      · exact scanBody_bs_dq _ _
+    · subst h1; exact scanBody_bs_bs _ _
+  rw [if_neg h1]
+  simp only [Bool.or_eq_true, beq_iff_eq, not_or] at h1
+  by_cases h2 : (c == '\t') = true
+  · rw [if_pos h2]; simp only [beq_iff_eq] at h2; subst h2; exact scanBody_bs_t _ _
+  rw [if_neg h2]
+  by_cases h3 : (c == '\n') = true
+  · rw [if_pos h3]; simp only [beq_iff_eq] at h3; subst h3; exact scanBody_bs_n _ _
+  rw [if_neg h3]
+  by_cases h4 : (c == '\r') = true
+  · rw [if_pos h4]; simp only [beq_iff_eq] at h4; subst h4; exact scanBody_bs_r _ _
+  rw [if_neg h4]
+  simp only [beq_iff_eq] at h2 h3 h4
+  have plain : scanBody q ([c] ++ tail) = consFst c (scanBody q tail) := by
+    simp only [List.cons_append, List.nil_append]
+    rw [scanBody_plain _ _ _ h1.2]
+    simp [h1.1, h1.2, h3, h4]
+  by_cases h5 : (decide (c.toNat < 32) || c.toNat == 127) = true
+  · rw [if_pos h5]
+    simp only [Bool.or_eq_true, decide_eq_true_eq, beq_iff_eq] at h5
+    exact scanBody_hex2 _ _ _ (by omega)
+  rw [if_neg h5]
+  by_cases h6 : c.toNat < 127
+  · rw [if_pos h6]; exact plain
+  rw [if_neg h6]
+  by_cases h7 : p c.toNat = true
+  · rw [if_pos h7]; exact plain
+  rw [if_neg h7]
+  by_cases h8 : c.toNat ≤ 255
+  · rw [if_pos h8]; exact scanBody_hex2 _ _ _ (by omega)
+  rw [if_neg h8]
+  by_cases h9 : c.toNat ≤ 65535
+  · rw [if_pos h9]; exact scanBody_hex4 _ _ _ (by omega)
+  rw [if_neg h9]
+  exact scanBody_hex8 _ _ _
+
+theorem chooseQuote_isQuote (s : List Char) : chooseQuote s = '\'' ∨ chooseQuote s = '"' := by
+  unfold chooseQuote; split <;> simp
+
+theorem quote_ne_bs {q : Char} (hq : q = '\'' ∨ q = '"') : q ≠ '\\' := by
+  rcases hq with h | h <;> subst h <;> decide
+
+theorem scanBody_body (p : Nat → Bool) (q : Char) (hq : q = '\'' ∨ q = '"') (s rest : List Char) :
+    scanBody q (s.flatMap (escapeChar p q) ++ q :: rest) = some (s, rest) := by
+  induction s with
+  | nil =>
+    simp only [List.flatMap_nil, List.nil_append]
+    rw [scanBody_plain _ _ _ (quote_ne_bs hq)]; simp
+  | cons c s ih =>
+    rw [List.flatMap_cons, List.append_assoc, scanBody_escape p q c _ hq, ih]; rfl
+
+theorem escapeChar_head (p : Nat → Bool) (q c : Char) (hq : q = '\'' ∨ q = '"') :
+    ∃ h t, escapeChar p q c = h :: t ∧ h ≠ q := by
+  have hb := quote_ne_bs hq
+  unfold escapeChar
+  simp only []
+  by_cases h1 : (c == q || c == '\\') = true
+  · rw [if_pos h1]; exact ⟨_, _, rfl, hb.symm⟩
+  rw [if_neg h1]
+  simp only [Bool.or_eq_true, beq_iff_eq, not_or] at h1
+  repeat' split
+  all_goals first | exact ⟨_, _, rfl, hb.symm⟩ | exact ⟨_, _, rfl, h1.1⟩
+
+theorem pyScanStr_short (q : Char) (hq : q = '\'' ∨ q = '"') (body : List Char)
+    (h : ∀ t, body ≠ q :: q :: t) :
+    pyScanStr (q :: body) = (scanBody q body).map fun (b, r) => (String.ofList b, r) := by
+  have hq' : (q == '\'' || q == '"') = true := by
+    rcases hq with h | h <;> subst h <;> decide
+  unfold pyScanStr
+  simp only [hq', if_true]
+  split
+  · rename_i q2 q3 t
+    by_cases hc : (q2 == q && q3 == q) = true
+    · simp only [Bool.and_eq_true, beq_iff_eq] at hc
+      exact absurd (by rw [hc.1, hc.2]) (h t)
+    · rw [if_neg hc]
+  · rfl
+
+/-! ### main theorem -/
+
 /-- the text `repr()` emits for `s` is read back by Python's literal scanner as exactly `s`,
     consuming exactly that text — for every string, every `printable` classification, and
-    whatever follows -/
-theorem scan_repr (printable : Nat → Bool) (s : List Char) (rest : List Char) :
+    whatever follows, except Python's triple-quote corner: the empty string renders as `''`,
+    and `''` directly followed by `'` opens a triple-quoted literal.  `hrest` is decidable and
+    is the weakest possible side condition (see `scan_repr_nil_quote`). -/
+theorem scan_repr (printable : Nat → Bool) (s : List Char) (rest : List Char)
+    (hrest : s = [] → rest.head? ≠ some '\'') :
     pyScanStr (pyReprChars printable s ++ rest) = some (String.ofList s, rest) := by
-  sorry
+  have hq := chooseQuote_isQuote s
+  unfold pyReprChars
+  simp only [List.cons_append, List.append_assoc, List.nil_append]
+  rw [pyScanStr_short _ hq, scanBody_body printable _ hq]; rfl
+  intro t ht
+  cases s with
+  | nil =>
+    simp only [List.flatMap_nil, List.nil_append, List.cons.injEq, true_and] at ht
+    apply hrest rfl
+    rw [ht]; rfl
+  | cons c s' =>
+    obtain ⟨h, t', he, hne⟩ := escapeChar_head printable (chooseQuote (c :: s')) c hq
+    rw [List.flatMap_cons, he] at ht
+    simp only [List.cons_append, List.cons.injEq] at ht
+    exact hne ht.1
+
+/-- the side condition of `scan_repr` cannot be dropped: `repr("")` followed by `'` is the
+    opening of a triple-quoted string, which `pyScanStr` rejects -/
+theorem scan_repr_nil_quote (printable : Nat → Bool) (rest : List Char) :
+    pyScanStr (pyReprChars printable [] ++ '\'' :: rest) = none := by
+  simp [pyReprChars, chooseQuote, pyScanStr]
+
+/-- nothing after the literal: no side condition -/
+theorem scan_repr_nil_rest (printable : Nat → Bool) (s : List Char) :
+    pyScanStr (pyReprChars printable s ++ []) = some (String.ofList s, []) :=
+  scan_repr printable s [] (fun _ => by simp)
+
+/-- the literal is followed by any character other than `'` (in particular any non-quote
+    character: `)`, `,`, space, `]`, `+`, …) -/
+theorem scan_repr_cons_rest (printable : Nat → Bool) (s : List Char) (c : Char) (rest : List Char)
+    (hc : c ≠ '\'') :
+    pyScanStr (pyReprChars printable s ++ c :: rest) = some (String.ofList s, c :: rest) :=
+  scan_repr printable s (c :: rest) (fun _ => by simpa using hc)
+
+/-- non-empty strings: no side condition on what follows -/
+theorem scan_repr_ne_nil (printable : Nat → Bool) (s : List Char) (rest : List Char) (hs : s ≠ []) :
+    pyScanStr (pyReprChars printable s ++ rest) = some (String.ofList s, rest) :=
+  scan_repr printable s rest (fun h => absurd h hs)
 
 end Pyab.Proofs
